@@ -34,13 +34,23 @@ class Custom2(Exception):
         super().__init__(parts[0], 'x')       # args == (value, 'x'): handing them back raises ValueError
 
 
+class Custom3(Exception):
+    """its constructor accepts its own args tuple back but builds a different message from it (it formats its parameters)"""
+
+    def __init__(self, value, reason='unknown'):
+        super().__init__(value, 'is down (%s)' % reason)
+        self.reason = reason
+
+
 def NARGS():
-    return 2 if Boom is Custom2 else 1
+    return 2 if Boom in (Custom2, Custom3) else 1
 
 
 def mkboom(v):
     if Boom is Custom:
         return Custom(v, 'tag')
+    if Boom is Custom3:
+        return Custom3(v, 'fibre cut')
     return Boom(v)
 
 
@@ -64,7 +74,7 @@ def h_event(cfg):
         return sym_num(name, sort_of(sorts, i), 0)
 
     global Boom
-    Boom = {'base': Abort, 'custom': Custom, 'custom2': Custom2}.get(cfg.get('exc'), _Boom)
+    Boom = {'base': Abort, 'custom': Custom, 'custom2': Custom2, 'custom3': Custom3}.get(cfg.get('exc'), _Boom)
     V = sym_int('V')
     fails = target in ('fail', 'child-raise')
     step = [0]
@@ -230,7 +240,8 @@ def h_event(cfg):
         if fails:
             check('c02.outcome-kind', d[3] == 'exc', d[0])
             if d[3] == 'exc':
-                check('c02.exception-args', len(d[4]) == NARGS() and eq(d[4][0], V), d[0])
+                check('c02.exception-args', len(d[4]) == NARGS() and eq(d[4][0], V) and tuple(d[4][1:]) == tuple(orig_exc.args[1:]),
+                      (d[0], [str(x)[:30] for x in d[4][1:]]))
                 if d[5] is not None:
                     check('c02.exception-is-a-copy', d[5] is not orig_exc and type(d[5]) is Boom, d[0])
                     excs.append(d[5])
@@ -329,6 +340,8 @@ def jobs(tier, seed):
                 if len(ws) <= 2:
                     js.append({'harness': 'event', 'weight': 4 ** len(ws),
                                'cfg': {'target': target, 'waiters': ws, 'sorts': 'int', 'exc': 'custom2'}})
+                    js.append({'harness': 'event', 'weight': 4 ** len(ws),
+                               'cfg': {'target': target, 'waiters': ws, 'sorts': 'int', 'exc': 'custom3'}})
         if not target.startswith('child'):
             for sec in ('succeed', 'fail'):
                 js.append({'harness': 'event', 'weight': 8,
